@@ -36,7 +36,7 @@ CHECK = {
       S('exc', 2), S('tls', 3), S('alloc', 2), S('cont', 2), S('fmt', 1),
       S('parent+alloc', 2), S('parent+tls', 2), S('parent+tls', 2, args=['scn=parent+tls', 'bound=2', 'threads=2', 'managed=1'], name='parent+tls-managed-b2'),
       S('parent+args', 2), S('parent+args', 2, args=['scn=parent+args', 'bound=2', 'threads=2', 'managed=1', 'seed=1'], name='parent+args-managed-seeded-b2'), S('args', 1),
-      S('abandon', 2),
+      S('abandon', 2), S('rerun', 1), S('parent+args', 2, args=['scn=parent+args', 'bound=2', 'threads=2', 'heapargs=1'], name='parent+args-heapargs-b2'),
       F('alloc'), F('exc'), F('tls'), F('cont'), F('fmt'), F('mutex-lock'), F('parent+alloc'), F('parent+tls'), F('parent+tls', 2, 8, ('managed=1',)), F('parent+args'),
     ],
     'thorough': [
@@ -45,7 +45,7 @@ CHECK = {
       S('exc', 2), S('tls', 2), S('alloc', 2), S('cont', 2),
       S('exc', 1, threads=3), S('alloc', 1, threads=3), S('fmt', 2), S('fmt', 1, threads=3),
       S('parent+alloc', 2), S('parent+tls', 2), S('parent+exc', 2), S('parent+cont', 2),
-      S('abandon', 3), S('abandon', 2, threads=3),
+      S('abandon', 3), S('abandon', 2, threads=3), S('rerun', 2), S('parent+args', 3, args=['scn=parent+args', 'bound=3', 'threads=2', 'heapargs=1'], name='parent+args-heapargs-b3'),
       S('parent+args', 3), S('parent+args', 3, args=['scn=parent+args', 'bound=3', 'threads=2', 'managed=1', 'seed=1'], name='parent+args-managed-seeded-b3'), S('args', 2), S('args', 1, threads=3), F('parent+args', 2, 10), F('args', 3, 10),
       F('alloc', 3, 10), F('fmt', 3, 10), F('exc', 3, 10), F('tls', 3, 10), F('cont', 3, 10), F('mutex-lock', 3, 10), F('mutex-with', 3, 10), F('parent+alloc', 2, 10), F('parent+tls', 2, 10), F('parent+cont', 2, 10),
     ],
